@@ -149,7 +149,7 @@ def _graph(p, calc, shot, extra_objs=()):
 def _cfg_args(tier):
     out = []
     for (c, step, wind, kw) in [('A', 100.0, 'two_unsorted', {}), ('B', 60.0, 'left', {}), ('C', 100.0, 'tail', dict(relative_deg=30.0))]:
-        for op in ('fire', 'fire_extra', 'zero', 'elevation', 'fire_raises', 'danger_space'):
+        for op in ('fire', 'fire_extra', 'zero', 'elevation', 'fire_raises', 'danger_space', 'zero_raises', 'elevation_raises'):
             for preset in ('imperial', 'metric'):
                 out.append({'carrier': c, 'step_ft': step, 'wind': wind, 'kw': kw, 'op': op, 'preset': preset})
     return out
@@ -163,11 +163,16 @@ def _cfg_args(tier):
 def c10_args(ctx, carrier, step_ft, wind, kw, op, preset):
     p = pybc()
     U = p.Unit
-    cfg_raise = {'cMinimumVelocity': 1e5} if op == 'fire_raises' else None
+    cfg_raise = {'cMinimumVelocity': 1e5} if op in ('fire_raises', 'zero_raises', 'elevation_raises') else None
     with with_preferred():
         getattr(p, 'loadMetricUnits' if preset == 'metric' else 'loadImperialUnits')()
         calc, shot = carriers.make(carrier, step_ft, wind, config=cfg_raise, **kw)
-        if op in ('zero', 'elevation'):
+        # a hold-over on the shot, and a zero-elevation quantity that the caller and a second weapon also hold (aliasing)
+        shot.relative_angle = U.Radian(0.002)
+        shared_zero = shot.weapon.zero_elevation
+        shared_raw = shared_zero.raw_value
+        other_weapon = p.Weapon(U.Inch(1.0), U.Inch(9.0), shared_zero)
+        if op in ('zero', 'elevation', 'zero_raises', 'elevation_raises'):
             # a symbolic zero distance would make the whole physics symbolic: concrete here (the request plane is covered by the fire operations)
             ctx.real('range_ft', 0, 1)
             R, S = U.Foot(3.0 * step_ft), U.Foot(step_ft)
@@ -181,9 +186,9 @@ def c10_args(ctx, carrier, step_ft, wind, kw, op, preset):
                 calc.fire(shot, R, S)
             elif op == 'fire_extra':
                 calc.fire(shot, R, S, True)
-            elif op == 'zero':
+            elif op in ('zero', 'zero_raises'):
                 calc.set_weapon_zero(shot, R)
-            elif op == 'elevation':
+            elif op in ('elevation', 'elevation_raises'):
                 calc.barrel_elevation_for_target(shot, R)
             else:
                 calc.fire(shot, R, S, True).danger_space(U.Foot(1.5 * step_ft), U.Inch(20.0))
@@ -204,6 +209,9 @@ def c10_args(ctx, carrier, step_ft, wind, kw, op, preset):
     else:
         ctx.check('arguments_unchanged', changed == [], info={'changed': changed[:6]})
         ctx.reach('check:zeroing_changes_only_the_stored_zero')
+    # a quantity that was the stored zero before the call is still held by the caller and by another weapon: its magnitude is untouched
+    ctx.check('previous_zero_quantity_keeps_its_magnitude', ctx.same_term(shared_zero.raw_value, shared_raw)
+              and other_weapon.zero_elevation is shared_zero, info={'op': op})
     # argument quantities passed for range / step keep their magnitude (their display unit may be re-labelled)
     ctx.check('request_quantities_keep_magnitude', ctx.same_term(R.raw_value, r_raw) and ctx.same_term(S.raw_value, s_raw))
 
